@@ -99,3 +99,25 @@ Lemma exclude_never_touched_current : forall frepr p fuel o deep sdir ddir subdi
   (forall es, lookup_path p (Dir ddir) <> Some (Dir es)) ->
   lookup_path p (Dir (fst (sync_ws frepr cfg_current fuel o deep sdir ddir subdir))) = lookup_path p (Dir ddir).
 Proof. intros. apply ws_exclude_never_touched; auto. Qed.
+
+Lemma deep_by_content_job_level : forall frepr cf o sid did dsp src dst c1 m1 c2 m2,
+  run_sync frepr cf o (E_job sid did dsp) src dst =
+    (let '(d', e) := sync_jobs_m frepr cf o (o_deep o) false (job_dir sid (p_ws src)) (job_dir did (p_ws dst)) dsp in
+     ({| p_top := p_top dst;
+         p_ws := match d' with Some x => aset did (Dir x) (p_ws dst) | None => p_ws dst end |}, e))
+  /\ (file_same frepr true c1 m1 c2 m2 = false
+      <-> bytes_eqb (content_bytes frepr c1) (content_bytes frepr c2) = false).
+Proof. intros. split; [apply job_level_deep|apply deep_diff_is_bytes]. Qed.
+
+Lemma job_step_is_local : forall frepr cf o,
+  frame_step (fun kn : str * node => fst kn) (clone_or_sync frepr cf o)
+  /\ local_step (fun kn : str * node => fst kn) (clone_or_sync frepr cf o).
+Proof. intros. split; [apply clone_or_sync_frame|apply clone_or_sync_local]. Qed.
+
+Lemma model_holds_C15_current : forall frepr i,
+  i_entry i = E_project -> o_dry_run (i_opts i) = true ->
+  docs_wf (i_src i) -> wf_project (i_src i) = true -> wf_project (i_dst i) = true ->
+  let c := model_case frepr cfg_current i in
+  proj_eqb frepr (i_dst i) (ob_dst (c_obs c)) = true /\ proj_eqb frepr (i_src i) (ob_src (c_obs c)) = true
+  /\ ob_rest_ok (c_obs c) = true.
+Proof. intros frepr i He Hd. apply (model_holds_C15 frepr cfg_current i He Hd); reflexivity. Qed.
